@@ -122,7 +122,7 @@ def c15(tier, seed):
         'allocator: blocks are filled with 0xDD junk, never zero; ledger detects unknown, repeated and NULL frees'])
 
 def c18(tier, seed):
-    runs = [Run('e1_bfs', 'asan', ['inject']), Run('e2_tape', 'asan', []), Run('e1_bfs', 'asan', ['api', '2'])]
+    runs = [Run('e1_bfs', 'asan', ['inject']), Run('e2_tape', 'asan', []), Run('e1_bfs', 'asan', ['api', '2']), Run('e2_crypt', 'asan', [])]     # e2_crypt: the normaliser is the injected one for every kind of password
     def audit(results):
         d = build.lib_dir('plain')
         und = [l.split()[-1] for l in open(d + '/undefined.txt') if l.strip()]
@@ -195,6 +195,7 @@ def c16(tier, seed):
     modes = ['gcc-O2', 'gcc-O0'] if tier == 'quick' else ['gcc-O0', 'gcc-O1', 'gcc-O2', 'gcc-O3', 'gcc-Os', 'clang-O0', 'clang-O2', 'clang-O3']
     runs = [Run('e4_residue', m, ['--build', m], label='e4_residue[%s]' % m) for m in modes]
     runs.append(Run('e1_bfs', 'asan', ['api', '2']))     # zero-at-free / memzero-before-free on every free of every reachable history
+    runs.append(Run('e2_fault', 'asan', []))             # ... and on every release made while any one allocation request of a call fails
     def cov(results):
         return {'builds': modes, 'cells_reached_per_build': {res['_label']: res.get('cells_reached') for r, res in results if r.prog == 'e4_residue'},
                 'bytes_scanned': sum(res.get('bytes_scanned', 0) for r, res in results), 'cells_expected': 63}
@@ -223,9 +224,18 @@ def c20(tier, seed):
         c['complete_without_preemption_bound'] = all(v == 1 for k, v in c['e3'].items() if k.endswith('_complete'))
         d = build.lib_dir('tsanrt')
         c['writable_library_data'] = [l.split()[-1] + ':' + l.split()[1] for l in open(d + '/symbols.txt') if len(l.split()) == 4 and l.split()[2] in 'dDbB']
+        c['external_functions_called_by_the_library'] = [l.split()[-1] for l in open(d + '/undefined.txt') if l.strip() and not l.split()[-1].startswith('__tsan')]
         return c
     def post(results):
         out = []
+        # what the scheduler cannot see: C library functions that keep process-wide state of their own (POSIX: MT-Unsafe race:...).
+        # A library that calls one of them from the thread-safe part of its API races inside libc, outside the instrumented code.
+        unsafe = {'strtok', 'rand', 'srand', 'random', 'srandom', 'drand48', 'lrand48', 'mrand48', 'localtime', 'gmtime', 'ctime', 'asctime', 'strerror',
+                  'setlocale', 'tmpnam', 'readdir', 'getpwnam', 'getpwuid', 'strsignal', 'ecvt', 'fcvt', 'gcvt', 'l64a', 'setenv', 'putenv', 'unsetenv', 'tzset', 'mktime', 'getenv', 'wcstombs', 'mblen', 'mbtowc', 'wctomb'}
+        und = [l.split()[-1] for l in open(build.lib_dir('tsanrt') + '/undefined.txt') if l.strip()]
+        for u in und:
+            if u in unsafe:
+                out.append({'key': 'c20:libc-hidden-state:%s' % u, 'replay': '', 'msg': 'the library calls %s, which keeps process-wide state inside the C library (MT-Unsafe): concurrent calls on distinct seeds race there, outside the library static data the scheduler instruments' % u})
         for r, res in results:
             if r.prog == 'e3_free' and 'ThreadSanitizer' in res.get('_stderr', ''):
                 out.append({'key': 'c20:tsan-report', 'replay': '', 'msg': 'ThreadSanitizer reported a data race in the free-running pass: ' + res['_stderr'][:1200]})
